@@ -1,7 +1,7 @@
-(* C14 phase 2: agreement of the two reader models on modules without blackbox instances (part A10) *)
+(* C14 phase 2: agreement of the two reader models on the documented subset (part A10) *)
 From stdpp Require Import strings gmap sets pretty.
 From CG Require Import Model.FastVerilog Proofs.FastVerilogProofs Gen.Gen_fastv.
-From CG Require Import Proofs.FvA0 Proofs.FvA1 Proofs.FvA2 Proofs.FvA3 Proofs.FvA4 Proofs.FvA5 Proofs.FvA6 Proofs.FvA7 Proofs.FvA8 Proofs.FvA9.
+From CG Require Import Proofs.FvA0 Proofs.FvA1 Proofs.FvA2 Proofs.FvP1 Proofs.FvE1 Proofs.FvE2 Proofs.FvE3 Proofs.FvE4 Proofs.FvA3 Proofs.FvE5 Proofs.FvE6 Proofs.FvE7 Proofs.FvA4 Proofs.FvA5 Proofs.FvA6 Proofs.FvA7 Proofs.FvA8 Proofs.FvA9.
 Open Scope string_scope.
 
 Definition ft0 (a : ast) := uid_in (idents a) full_tie0.
@@ -11,17 +11,12 @@ Definition fg2 (a : ast) : circuit := <[ft1 a := mk_node C1 false ∅]> (fg1 a).
 Definition ftx (a : ast) := uid_in (dom (fg2 a) ∪ idents a) full_tiex.
 Definition fg3 (a : ast) : circuit := <[ftx a := mk_node CX false ∅]> (fg2 a).
 Definition s0 : st := {| sG := ∅; sI := ∅; sU := ∅ |}.
-Definition sF (t0 t1 : string) (a : ast) : st := foldl (stp t0 t1) s0 (a_items a).
+Definition sF (t0 t1 : string) (bbs : list bbdef) (a : ast) : st := foldl (stp t0 t1 bbs) s0 (a_items a).
 Definition drop3 (g : circuit) (t0 t1 tx : string) : circuit :=
   drop_unused_full (drop_unused_full (drop_unused_full g t0) t1) tx.
 Definition mark (outs : list string) (g : circuit) (m : string) : option ninfo :=
   (λ i, if decide (m ∈ outs) then set_out true i else i) <$> g !! m.
 
-Lemma add_plain_fresh g n t : n ∉ dom g → t ∈ supported_types → okname n → add_plain g n t = Ok (<[n := mk_node t false ∅]> g).
-Proof.
-  intros Hn Ht [Hne Hd]. unfold add_plain. rewrite add_g_nil. rewrite (bool_decide_eq_false_2 _ Hn), (bool_decide_eq_true_2 _ Ht).
-  cbn [negb]. rewrite (bool_decide_eq_false_2 _ Hne), Hd. unfold fanin. apply not_elem_of_dom in Hn. by rewrite Hn.
-Qed.
 
 Lemma full_ties_facts a :
   (okname (ft0 a) ∧ okname (ft1 a) ∧ okname (ftx a)) ∧ (ft0 a ∉ idents a ∧ ft1 a ∉ idents a ∧ ftx a ∉ idents a) ∧
@@ -36,12 +31,15 @@ Proof.
   split; [|split]; apply uid_in_okname; split; vm_compute; done.
 Qed.
 
-Theorem full_sem_char a bbs : in_subset a bbs = true → no_inst a = true →
-  ∃ C1 g1, rel (ft0 a) (ft1 a) (ftx a) (c_g C1) (sF (ft0 a) (ft1 a) a) ∧ Gok (sF (ft0 a) (ft1 a) a) ∧
+Lemma full_ties_nodot a : dotted (ft0 a) = false ∧ dotted (ft1 a) = false ∧ dotted (ftx a) = false.
+Proof. split; [|split]; apply uid_in_not_dotted; by vm_compute. Qed.
+
+Theorem full_sem_char a bbs : in_subset a bbs = true →
+  ∃ C1 g1, rel (ft0 a) (ft1 a) (ftx a) (c_g C1) (sF (ft0 a) (ft1 a) bbs a) ∧
     (∀ m, g1 !! m = mark (decl_outputs a) (c_g C1) m) ∧
-    full_sem a bbs = Ok {| c_name := a_name a; c_g := drop3 g1 (ft0 a) (ft1 a) (ftx a); c_bbs := ∅ |}.
+    full_sem a bbs = Ok {| c_name := a_name a; c_g := drop3 g1 (ft0 a) (ft1 a) (ftx a); c_bbs := c_bbs C1 |}.
 Proof.
-  intros Hsub Hni. pose proof (in_subset_facts a bbs Hsub) as HF.
+  intros Hsub. pose proof (in_subset_facts a bbs Hsub) as HF.
   destruct (full_ties_facts a) as (Hties & Hfresh & H01 & H0x & H1x).
   pose proof Hties as (Hk0 & Hk1 & Hkx).
   unfold full_sem. fold (ft0 a).
@@ -52,19 +50,21 @@ Proof.
   rewrite (add_plain_fresh (fg2 a) (ftx a) CX); [|unfold fg2, fg1; rewrite !dom_insert, dom_empty; set_solver|vm_compute; set_solver|done]. cbn [rbind].
   fold (fg3 a).
   set (C0' := {| c_name := ""; c_g := fg3 a; c_bbs := ∅ |}).
-  destruct (full_fold (ft0 a) (ft1 a) (ftx a) Hties bbs (a_items a) C0' s0) as (C1 & Hfold & Hrel & HG & Hb).
+  destruct (full_fold (ft0 a) (ft1 a) (ftx a) bbs Hties (full_ties_nodot a) (a_items a) C0' s0) as (C1 & Hfold & Hrel & HG & Hb).
   { intros m. cbn [c_g C0']. unfold fg3, fg2, fg1, look. cbn [sG sI sU].
     destruct (decide (m = ft0 a)) as [->|]; [by rewrite !lookup_insert_ne, lookup_insert by done|].
     destruct (decide (m = ft1 a)) as [->|]; [by rewrite lookup_insert_ne, lookup_insert by done|].
     destruct (decide (m = ftx a)) as [->|]; [by rewrite lookup_insert|].
     rewrite !lookup_insert_ne, !lookup_empty by done. rewrite decide_False by set_solver. by rewrite decide_False by set_solver. }
-  { intros o t fis. cbn [sG s0]. by rewrite lookup_empty. }
+  { split; cbn [sG sI sU s0]; intros *; try (by rewrite lookup_empty); set_solver. }
   { intros it Hit. by eapply good_of. }
-  { rewrite <- (drivers_eq a bbs) by done. apply (sf_nodup a bbs HF). }
+  { by apply (nodup_keys a bbs (ft0 a) (ft1 a) (ftx a)). }
+  { by apply (nodup_insts a bbs). }
   { intros o Ho. cbn [sG sI s0]. rewrite lookup_empty. split; [done|]. split; [set_solver|].
-    rewrite inputs_eq. apply (sf_drv_in a bbs HF). by rewrite (drivers_eq a bbs (ft0 a) (ft1 a)). }
+    rewrite inputs_eq. by apply (key_not_input a bbs (ft0 a) (ft1 a) (ftx a) HF Hfresh). }
   { intros n _. cbn [sG s0]. by rewrite lookup_empty. }
-  rewrite Hfold. cbn [rbind]. fold (sF (ft0 a) (ft1 a) a) in Hrel, HG.
+  { intros i _. cbn [c_bbs C0']. set_solver. }
+  rewrite Hfold. cbn [rbind]. fold (sF (ft0 a) (ft1 a) bbs a) in Hrel, HG.
   pose proof (sf_ports a bbs HF) as Hports.
   rewrite (bool_decide_eq_true_2 (list_to_set (decl_inputs a) ⊆ list_to_set (a_ports a))) by (rewrite Hports; set_solver).
   rewrite (bool_decide_eq_true_2 (list_to_set (decl_outputs a) ⊆ list_to_set (a_ports a))) by (rewrite Hports; set_solver).
@@ -75,13 +75,12 @@ Proof.
     assert (Hoi : o ∈ idents a) by by apply decl_outputs_idents.
     destruct (ident_facts a bbs _ _ _ HF Hfresh o Hoi) as [_ Hnt]. rewrite look_nontie by done. unfold look_rest.
     destruct (sf_outs a bbs HF o Ho) as [Hd|Hi].
-    - rewrite (drivers_eq a bbs (ft0 a) (ft1 a)) in Hd by done. apply elem_of_list_bind in Hd as (it & Hd & Hit).
-      unfold it_driver in Hd. destruct (gate_view (ft0 a) (ft1 a) it) as [[o' v]|] eqn:Ev; [|by apply elem_of_nil in Hd].
-      apply elem_of_list_singleton in Hd as ->.
-      assert (HGv : sG (sF (ft0 a) (ft1 a) a) !! o' = Some v).
-      { apply stp_fold_G; [rewrite <- (drivers_eq a bbs) by done; apply (sf_nodup a bbs HF)|intros; apply lookup_empty|]. right. eauto. }
-      rewrite HGv. destruct v. eauto.
+    - apply elem_of_list_bind in Hd as (it & Hd & Hit).
+      pose proof (drivers_sub a bbs (ft0 a) (ft1 a) (ftx a) HF Hfresh it o Hit Hd) as Hk. unfold it_driver in Hk. apply elem_of_list_fmap in Hk as ([o' v] & -> & Hv).
+      assert (HGv : sG (sF (ft0 a) (ft1 a) bbs a) !! o' = Some v).
+      { apply stp_fold_G; [by apply (nodup_keys a bbs (ft0 a) (ft1 a) (ftx a))|intros; apply lookup_empty|]. right. eauto. }
+      cbn [fst]. rewrite HGv. destruct v as [??]. eauto.
     - destruct (sG _ !! o) as [[??]|]; [eauto|]. rewrite decide_True; [eauto|].
       unfold sF. rewrite stp_fold_I, inputs_eq. set_solver. }
-  rewrite Hso. exists C1, g1. split; [done|]. split; [done|]. split; [done|]. by rewrite Hb.
+  rewrite Hso. exists C1, g1. done.
 Qed.
